@@ -32,6 +32,11 @@ C18_Success(x, ev, pos) ==
      /\ x.after.target = x.expected
      /\ x.after.tmp = 0
      /\ x.after.beside = (IF x.writer = "html" THEN x.before.beside \o x.resources ELSE x.before.beside)
+\* nothing was made to fail and the converter (if any) delivers: the export completes (write_rtf "creating missing parent
+\* directories"; "on success the converter's output ends up at the requested path")
+C18_Completes(x, ev, pos) ==
+  (pos = Len(ev) + 1 /\ x.fault = 0 /\ x.fsfault = 0 /\ ~x.fault_fired /\ ~x.fs_fired /\ x.conv \in {"ok", "ok_empty"}
+     /\ x.converter # "default") => x.outcome = "returned"
 C18_Raises(x, ev, pos) ==
   (pos = Len(ev) + 1) =>
      /\ (x.conv \in {"raise_before", "raise_after"} /\ x.converter = "stub" /\ x.reached_convert) => (x.outcome = "raised" /\ x.exc = "ConverterBoom")
@@ -48,6 +53,7 @@ Holds(name, x, ev, pos) ==
     [] name = "C18_FailureAtomic" -> C18_FailureAtomic(x, ev, pos)
     [] name = "C18_Success" -> C18_Success(x, ev, pos)
     [] name = "C18_Raises" -> C18_Raises(x, ev, pos)
+    [] name = "C18_Completes" -> C18_Completes(x, ev, pos)
 Init == tid \in 1..Len(All) /\ l = 1 /\ bad = {}
 Failing(t, pos) == {y \in Judge : ~Holds(y, All[t].c, E(t), pos)}
 ConsumeFsEvent == /\ l <= Len(E(tid)) + 1 /\ bad' = bad \cup {[cl |-> y, at |-> l] : y \in Failing(tid, l)}
